@@ -17,6 +17,8 @@ import E2P.Model.Text
 import E2P.Spec.TextSpec
 import E2P.Model.Branch
 import E2P.Spec.BranchSpec
+import E2P.Model.Agg
+import E2P.Spec.AggSpec
 import E2P.Generated.RuntimeConsts
 open E2P
 
@@ -285,6 +287,66 @@ def handleBranch (args : List String) : String :=
         | _ => "bad-op"
   | _ => "bad-op"
 
+/-- `Q<num>/<den>`: the exact value of a number, kind-insensitive (MIN/MAX are specified as values) -/
+def encQ (q : Rat) : String := s!"Q{q.num}/{q.den}"
+
+def errsGen : List (List Char) := E2P.Generated.errorValuesTemplate.map String.toList
+
+/-- aggregates: `ag <fn> <args as one list value>` / `ag count <matrices> <args> <cells>` -/
+def handleAgg (args : List String) : String :=
+  match args with
+  | fn :: rest =>
+    match decAll rest with
+    | none => "bad-op"
+    | some vs =>
+      match fn, vs with
+      | "count", [.list ms, .list as, .list cs] =>
+        let model := countF ms as cs
+        let fl := flattenL ms ++ cs
+        let plain := plainCells excelErrors fl && plainCells excelErrors as
+        let scal := (as.filter fun v => match v with
+          | .int _ | .flt _ | .bool _ => true | .str s => isDigitText s | _ => false).length
+        let spec := if plain then s!"I{specCount (ms ++ cs) + scal}" else "-"
+        s!"I{model} | {spec} | "
+      | _, [.list as] =>
+        let fl := flattenL as
+        let plain := plainCells excelErrors fl
+        let nums := numericCells as
+        let exact := allExact nums
+        match fn with
+        | "sum" =>
+          let model := if exact then encRes (sumCall as) else "EUnmodelled"
+          s!"{model} | {if exact && plain then optV (some (specSum as)) else "-"} | "
+        | "average" =>
+          let model := if exact then encRes (averageCall as) else "EUnmodelled"
+          let spec := match specAverage as with
+            | some v => if exact && plain then optV (some v) else "-"
+            | none => "-"
+          s!"{model} | {spec} | "
+        | "min" =>
+          let model := minCall errsGen as
+          let spec := match nums with
+            | [] => "-"
+            | v :: r => if plain then encQ (ratOf (minFold v r)) else "-"
+          s!"{encRes model} | {spec} | "
+        | "max" =>
+          let model := maxCall errsGen as
+          let spec := match nums with
+            | [] => "-"
+            | v :: r => if plain then encQ (ratOf (maxFold v r)) else "-"
+          s!"{encRes model} | {spec} | "
+        | "countblank" =>
+          s!"{encRes (countBlankCall errsGen as)} | {if plain then s!"I{specCountBlank as}" else "-"} | "
+        | "and" =>
+          let truthDefined := fl.all fun v => match v with | .int _ | .flt _ | .bool _ | .blank => true | _ => false
+          s!"{if andCall as then "T" else "F"} | {if truthDefined then (if fl.all truthy then "T" else "F") else "-"} | "
+        | "or" =>
+          let truthDefined := fl.all fun v => match v with | .int _ | .flt _ | .bool _ | .blank => true | _ => false
+          s!"{if orCall as then "T" else "F"} | {if truthDefined then (if fl.any truthy then "T" else "F") else "-"} | "
+        | _ => "bad-op"
+      | _, _ => "bad-op"
+  | _ => "bad-op"
+
 def handle (line : String) : String :=
   match tokens line with
   | "echo" :: rest =>
@@ -298,6 +360,7 @@ def handle (line : String) : String :=
   | "tx" :: rest => handleText rest
   | "br" :: rest => handleBranch rest
   | "pct" :: rest => handlePct rest
+  | "ag" :: rest => handleAgg rest
   | _ => "bad-op"
 
 partial def loop (h : IO.FS.Stream) (out : IO.FS.Stream) : IO Unit := do
